@@ -215,3 +215,11 @@ Theorem c14_sessions_after_leader_change : forall meta_enc meta_dec cfg mn mx lo
      In (z, mkSess t now) (sw_sessions w')).
 Proof. exact sessions_after_leader_change. Qed.
 Print Assumptions c14_sessions_after_leader_change.
+
+(* Each session restored by Initialize runs with the metadata decoded from its own key. *)
+Theorem c14_leader_init_own_metadata : forall meta_dec st now l z ss,
+  leader_init meta_dec st now = Ok l -> In (z, ss) l ->
+  (forall y, In y (db_list st session_lo session_hi) -> key_to_id y = Some z -> y = session_key z) ->
+  exists e, kv_get (st_kv st) (session_key z) = Some (VRecord e) /\ meta_dec (e_value e) = Some (ss_timeout ss) /\ ss_armed ss = now.
+Proof. exact leader_init_own_metadata. Qed.
+Print Assumptions c14_leader_init_own_metadata.
